@@ -611,3 +611,62 @@ pub fn metrics_collect(ctx: &VContext) -> String {
 pub async fn metrics_handle_request(ctx: &VContext, io: tokio::net::TcpStream) {
     crate::metrics::verif_handle_request(ctx.0.clone(), io, log_utils::IdChain::empty()).await
 }
+
+// ---------------------------------------------------------------------------------------------
+// ICMP messages
+// ---------------------------------------------------------------------------------------------
+
+/// The wire bytes of the echo request the endpoint would emit (`Message::serialize`)
+pub fn echo_serialize(v6: bool, identifier: u16, sequence_number: u16, data: Bytes) -> Bytes {
+    let echo = crate::icmp_utils::Echo {
+        code: 0,
+        identifier,
+        sequence_number,
+        data,
+    };
+    if v6 {
+        crate::icmp_utils::Message::V6(crate::icmp_utils::v6::Message::EchoRequest(echo)).serialize()
+    } else {
+        crate::icmp_utils::Message::V4(crate::icmp_utils::v4::Message::Echo(echo)).serialize()
+    }
+}
+
+#[derive(Debug, Clone, PartialEq, Eq, Hash)]
+pub struct VIcmpParsed {
+    pub type_id: u8,
+    pub code: u8,
+    pub len: usize,
+    /// (identifier, sequence number, data) of the echo request this message answers, if any
+    pub responded_echo: Option<(u16, u16, Vec<u8>)>,
+    /// what the 7.4 encoder emits for this message coming from `peer`
+    pub encoded: Option<Vec<u8>>,
+}
+
+/// `v4::Message::deserialize` / `v6::Message::deserialize` on an ICMP message (IP header already
+/// stripped), then `responded_echo_request` and the 7.4 encoder, as `IcmpForwarder::listen` and
+/// the downstream sink do.
+pub fn icmp_parse(v6: bool, peer: IpAddr, packet: Bytes) -> Result<VIcmpParsed, String> {
+    let msg: crate::icmp_utils::Message = if v6 {
+        crate::icmp_utils::v6::Message::deserialize(packet)
+            .map(Into::into)
+            .map_err(|e| format!("{e:?}"))?
+    } else {
+        crate::icmp_utils::v4::Message::deserialize(packet)
+            .map(Into::into)
+            .map_err(|e| format!("{e:?}"))?
+    };
+    let responded = msg.responded_echo_request();
+    let encoded = http_icmp_codec::Encoder::default()
+        .encode_packet(&forwarder::IcmpDatagram {
+            meta: forwarder::IcmpDatagramMeta { peer },
+            message: msg.clone(),
+        })
+        .map(|b| b.to_vec());
+    Ok(VIcmpParsed {
+        type_id: msg.type_id(),
+        code: msg.code(),
+        len: msg.len(),
+        responded_echo: responded.map(|e| (e.identifier, e.sequence_number, e.data.to_vec())),
+        encoded,
+    })
+}
